@@ -371,7 +371,7 @@ class Ctx:
         foreign = []
         for line in txt.splitlines():
             m = re.match(r"^([\w.']+)\s*:", line)
-            if m:
+            if m and m.group(1) not in ("Axioms", "Variables"):
                 nm = m.group(1)
                 if not any(nm == p or nm.startswith(p) or nm.endswith("." + p) for p in STD_AXIOM_PREFIXES):
                     foreign.append(nm)
@@ -459,7 +459,8 @@ class Ctx:
         if self._known is None:
             p = os.path.join(VERIF, "known_findings.json")
             self._known = json.load(open(p)) if os.path.exists(p) else {"findings": []}
-        return [f for f in self._known.get("findings", []) if f.get("property") == self.pid]
+        return [f for f in self._known.get("findings", [])
+                if f.get("property") == self.pid or self.pid in f.get("also", [])]
 
     def known_finding(self, key):
         """True (and prints the KNOWN-FINDING line once) iff key is listed as an OPEN finding"""
